@@ -82,7 +82,10 @@ def step (toks : List String) : String :=
     match q with
     | none => "P"
     | some q =>
-      s!"{showBits acc} {q.bonds.length} {showBool (shouldDoClusterUpdate q)} {showBool (shouldDoLoopUpdate q)} {showRat q.offset} {showNats q.nonConstDiags} {showApprox (energyForAverageN q (parseRat avgN) (parseRat beta))}"
+      -- last token: `is_constant()` of every stored interaction in bond order (true only for a FULL
+      -- matrix with all entries equal; a diagonal table is never constant, `C16`/`classification_meaning`)
+      let cbits := if q.bonds.isEmpty then "-" else String.ofList (q.bonds.map fun i => if i.isConstant then '1' else '0')
+      s!"{showBits acc} {q.bonds.length} {showBool (shouldDoClusterUpdate q)} {showBool (shouldDoLoopUpdate q)} {showRat q.offset} {showNats q.nonConstDiags} {showApprox (energyForAverageN q (parseRat avgN) (parseRat beta))} {cbits}"
   -- free-spin refresh
   | ["free", state, slots, script] =>
     let cfg : Config := { state := parseBits state, slots := parseSlots slots }
